@@ -242,6 +242,39 @@ for _name, _sel in [
       "3 variables, full i32 width, no holes", timeout=900, mem_gb=6, stubs=BR_STUBS,
       only_props=["C18"], full_range=True)
 
+# ---- C08: cumulative, profile-local kernels -------------------------------------------------------
+CUM = ["time_table_util::find_possible_updates (+ can_be_updated_by_profile, "
+       "lower/upper_bound_can_be_propagated_by_profile, has_mandatory_part_in_interval)",
+       "CumulativePropagationHandler::{propagate_lower_bound_with_explanations,"
+       "propagate_upper_bound_with_explanations,propagate_holes_in_domain}",
+       "explanations::{naive,big_step,pointwise}::*"] + CTX
+CUM_IN = ("1-2 profile tasks + the propagated task: start times any sub-interval of [-2,3], "
+          "durations 1-2, usages 1-4, capacity 0-6, profile [start,end] any window; assumption: "
+          "every profile task has a mandatory part covering the profile (validity of the profile)")
+for _n, _tier, _mem, _to in [
+    ("cumulative_pointwise_1", "quick", 16, 2400),
+    ("cumulative_naive_1", "thorough", 40, 3600),
+    ("cumulative_big_step_1", "thorough", 40, 3600),
+    ("cumulative_big_step_1_holes", "thorough", 50, 3600),
+    ("cumulative_pointwise_2", "thorough", 40, 3600),
+]:
+    H("h_cumulative::" + _n, "pumpkin-solver", "cumulative", ["O1", "O2", "O3", "O4", "O7"], _tier,
+      CUM, CUM_IN, "one (profile, task) step of propagate_single_profiles; time points -2..4; "
+      "unwind 10", timeout=_to, mem_gb=_mem, only_props=["C08"],
+      covers=["lower bound update possible", "propagation"])
+for _n in ("cumulative_conflict_naive_2", "cumulative_conflict_big_step_2",
+           "cumulative_conflict_pointwise_2"):
+    H("h_cumulative::" + _n, "pumpkin-solver", "cumulative", ["O2", "O4", "O7"], "quick",
+      ["propagation_handler::create_conflict_explanation",
+       "explanations::{naive,big_step,pointwise}::create_*_conflict_explanation"],
+      "2 profile tasks with mandatory parts covering the profile, height > capacity; V any point",
+      "time points -2..4, durations 1-2", timeout=900, mem_gb=4, only_props=["C08"],
+      covers=["overloaded valid profile"])
+H("h_cumulative::cumulative_create_tasks_filters", "pumpkin-solver", "cumulative",
+  ["K-tasks", "O7"], "quick", ["cumulative::utils::util::create_tasks"],
+  "3 tasks with durations and usages in 0..3", "3 tasks", timeout=900, mem_gb=4,
+  only_props=["C08"])
+
 # ---- kernels ----------------------------------------------------------------------------------
 H("h_kernels::predicate_negation", "pumpkin-solver", "kernels", ["K-pred"], "quick",
   ["<Predicate as Not>::not"], "any predicate kind, any i32 constant, any point",
@@ -343,13 +376,13 @@ PROPERTY_TAGS = {
     "C12": ["O1", "K-view", "K-round", "K-assume"],
     "C16": ["O7", "O1", "O2", "O3", "K-view", "K-round"],
     "C17": ["O1", "O2", "O3", "O4"],
-    "C08": ["O1", "O2", "O3", "O4", "O5"],
+    "C08": ["O1", "O2", "O3", "O4", "O7", "K-tasks"],
     "C09": ["O1", "O2", "O3", "O4", "O5"],
 }
 
 
 # properties that are served only by harnesses naming them explicitly
-KERNEL_ONLY_PROPS = ("C03", "C05", "C14", "C18", "C19")
+KERNEL_ONLY_PROPS = ("C03", "C05", "C08", "C14", "C18", "C19")
 
 
 def harnesses_for(prop, tier):
